@@ -58,7 +58,7 @@ def stepLine (y : Sym) (line : String) : Sym × String :=
     else
       let d := (draws.map N).toArray
       let seq := reconSchedule n' (N ss) (rnd == "1") (N s0) (N nsub) (fun j => d.getD j 0)
-      if seq.any (·.isNone) then (y, "ub")
+      if seq.any (·.isNone) then (y, "ub")   -- array indexed outside its range: cannot happen (C06_recon_defined)
       else if seq.isEmpty then (y, "-")
       else (y, " ".intercalate (seq.map fun o => toString (o.getD 0)))
   | "sched" :: n :: start :: rnd :: iters :: draws =>
